@@ -7,7 +7,7 @@ from .explore import Harness
 mir = __import__("os").environ.get("MIR", "/tmp/mirprobe/rzmq2.mir")
 from ..common import REPO as _REPO
 from ..mirdump import mir_path as _mp
-prog = MirProgram(_mp(), _REPO + "/core")
+prog = MirProgram(_mp(__import__("os").environ.get("MIR_FEATURES", "default")), _REPO + "/core")
 mod, fn = sys.argv[1], sys.argv[2]
 prefix = json.loads(sys.argv[3]) if len(sys.argv) > 3 else []
 drv = getattr(importlib.import_module("verifkit.mirsym.drivers." + mod), fn)
